@@ -8,7 +8,7 @@ V=/verif; SC=/root/wt/seedcheck; WT=/tmp/vs_$NAME
 PY=/venv/bin/python
 SUITE="-m pytest -q -p no:cacheprovider --timeout=900 --continue-on-collection-errors"
 if [ ! -d $SC ]; then git -C $V worktree add -q $SC -b wt-seedcheck; fi
-git -C $SC merge -q main -m "sync" >/dev/null 2>&1 || { (cd $SC && tools/resolve_generated.sh >/dev/null && git add -A && git commit -qm sync); }
+git -C $SC merge --abort >/dev/null 2>&1; git -C $SC reset -q --hard main; git -C $SC clean -qfd -e lean/.lake
 (cd $SC && ./setup.sh >/dev/null 2>&1)
 git -C /repo worktree add -q $WT HEAD || exit 2
 BASE=/tmp/baseline_failset_$(git -C /repo rev-parse --short HEAD).txt
